@@ -28,8 +28,8 @@ theorem C03_instance_level (a : Algo) (bs : List Be) (h : Nat) :
     cross retry is enabled and the sub-cluster drawn by `randomSelectExclude` has one. -/
 def EligiblePath (c : Cl) (retry : Int) (h n : Nat) : Prop :=
   retry ≤ c.retryMax + c.crossRetry ∧ ∃ cur, firstChoice c h = some cur ∧ cur.name ≠ blackholeName ∧
-    ((retry ≤ c.retryMax ∧ hasElig cur = true) ∨
-     (0 < c.crossRetry ∧ ∃ o, randomSelectExclude c cur n = some o ∧ hasElig o = true))
+    ((retry ≤ c.retryMax ∧ hasElig c.algo cur = true) ∨
+     (0 < c.crossRetry ∧ ∃ o, randomSelectExclude c cur n = some o ∧ hasElig c.algo o = true))
 
 /-- **Error iff nothing eligible**: `Balance` succeeds exactly when the entitled path has an eligible target,
     for every balancing mode, hash value and random draw. -/
@@ -59,14 +59,14 @@ theorem C03_ok_iff (c : Cl) (retry : Int) (h n : Nat) :
         have hne : cur.name ≠ blackholeName := by simpa using hb
         by_cases hr : retry ≤ c.retryMax
         · simp only [hr, if_true]
-          rcases hp : subPick c.algo cur.bs h with ⟨ob, bs'⟩
+          rcases hp : subPick c.algo (effBs c.algo cur) h with ⟨ob, bs'⟩
           cases ob with
           | some b =>
-            have he : hasElig cur = true := (subPick_isSome c.algo cur h).mp ⟨b, by rw [hp]⟩
+            have he : hasElig c.algo cur = true := (subPick_isSome c.algo cur h).mp ⟨b, by rw [hp]⟩
             simp only [resOk, true_iff]
             exact ⟨hle, cur, rfl, hne, Or.inl ⟨trivial, he⟩⟩
           | none =>
-            have he : hasElig cur = false := (hasElig_false_iff cur).mpr (subPick_none c.algo cur.bs h (by rw [hp]))
+            have he : hasElig c.algo cur = false := (hasElig_false_iff c.algo cur).mpr (subPick_none c.algo (effBs c.algo cur) h (by rw [hp]))
             simp only []
             rw [crossPart_ok_iff]
             constructor
@@ -98,16 +98,16 @@ theorem C03_err_iff (c : Cl) (retry : Int) (h n : Nat) :
     cross-retry target of weight ≥ 0 different from it. -/
 theorem C03_backend_ok (c : Cl) (retry : Int) (h n : Nat) (sub : String) (b : Be)
     (hres : (balance c retry h n).1 = .ok sub b) :
-    ∃ s ∈ c.subs, s.name = sub ∧ b ∈ s.bs ∧ b.avail = true ∧ 0 < b.w ∧ sub ≠ blackholeName ∧
+    ∃ s ∈ c.subs, s.name = sub ∧ b ∈ effBs c.algo s ∧ b.avail = true ∧ 0 < b.w ∧ sub ≠ blackholeName ∧
       (firstChoice c h = some s ∨ (0 ≤ s.w ∧ 0 < c.crossRetry)) := by
   have key : ∀ (c1 : Cl) (cur : SubSt) (r : Int), (crossPart c c1 cur r h n).1 = .ok sub b →
-      ∃ s ∈ c.subs, s.name = sub ∧ b ∈ s.bs ∧ b.avail = true ∧ 0 < b.w ∧ sub ≠ blackholeName ∧
+      ∃ s ∈ c.subs, s.name = sub ∧ b ∈ effBs c.algo s ∧ b.avail = true ∧ 0 < b.w ∧ sub ≠ blackholeName ∧
         (firstChoice c h = some s ∨ (0 ≤ s.w ∧ 0 < c.crossRetry)) := by
     intro c1 cur r hx
     have hpos : 0 < c.crossRetry := ((crossPart_ok_iff c c1 cur r h n).mp (by rw [hx]; rfl)).1
     obtain ⟨o, ho, hn, hp⟩ := crossPart_ok c c1 cur r h n sub b hx
     obtain ⟨hm, _, hw, hbh⟩ := rse_mem c cur o n ho
-    obtain ⟨hb1, hb2, hb3⟩ := (C03_instance_level c.algo o.bs h).1 b hp
+    obtain ⟨hb1, hb2, hb3⟩ := (C03_instance_level c.algo (effBs c.algo o) h).1 b hp
     exact ⟨o, hm, hn, hb1, hb2, hb3, hn ▸ hbh, Or.inr ⟨hw, hpos⟩⟩
   unfold balance at hres
   split at hres
@@ -123,7 +123,7 @@ theorem C03_backend_ok (c : Cl) (retry : Int) (h n : Nat) (sub : String) (b : Be
         · split at hres
           · rename_i b' bs' hp
             simp at hres
-            obtain ⟨hb1, hb2, hb3⟩ := (C03_instance_level c.algo cur.bs h).1 b (by rw [hp, ← hres.2])
+            obtain ⟨hb1, hb2, hb3⟩ := (C03_instance_level c.algo (effBs c.algo cur) h).1 b (by rw [hp, ← hres.2])
             exact ⟨cur, firstChoice_mem c h cur hf, hres.1, hb1, hb2, hb3, hres.1 ▸ hne, Or.inl hf⟩
           · exact key _ _ _ hres
         · exact key _ _ _ hres
@@ -168,6 +168,53 @@ theorem C03_first_choice_positive (conf : List SubSt) (rm cr : Int) (a : Algo) (
     have : s = s' := eq_of_nodup_map (·.name) conf hnd s hsm' s' hs' hname
     subst this
     rw [← hx'] at hxw; exact hxw
+
+/-! ### Slow start -/
+
+/-- `checkSlowStart` never leaves a (re)starting backend above its configured weight: the `weight = 1` written by
+    `initSlowStart` is recomputed by `updateSlowStart` in the same pass. -/
+theorem C03_slowstart_never_above_final (ssT : Int) (b : Be) (h : b.restart = true ∨ b.inSS = true) :
+    (ssStep ssT b).w ≤ b.final ∧ (ssStep ssT b).final = b.final ∧ (ssStep ssT b).addr = b.addr ∧
+    (ssStep ssT b).avail = b.avail := by
+  unfold ssStep
+  by_cases hr : b.restart = true
+  · simp only [hr, if_true]
+    by_cases hge : (b.final * 0).tdiv ssT ≥ b.final
+    · simp only [hge, if_true]; simp
+    · simp only [hge, if_false]; simp at hge ⊢; omega
+  · have hr' : b.restart = false := by simpa using hr
+    have hi : b.inSS = true := by rcases h with h | h; exact absurd h hr; exact h
+    simp only [hr', Bool.false_eq_true, if_false, hi, if_true]
+    by_cases hge : (b.final * b.age).tdiv ssT ≥ b.final
+    · simp only [hge, if_true]; simp
+    · simp only [hge, if_false]; simp; omega
+
+/-- **A restarted backend with configured weight ≤ 0 is never handed out**: with slow start enabled, whatever
+    `Balance` returns is an available backend of the sub-cluster, and if it is just restarted or still in slow
+    start its configured weight (`final`) is > 0 — for every mode, key, retry counter and random draw. -/
+theorem C03_slowstart_configured_positive (c : Cl) (retry : Int) (h n : Nat) (sub : String) (b : Be)
+    (hres : (balance c retry h n).1 = .ok sub b) :
+    ∃ s ∈ c.subs, s.name = sub ∧ ∃ b0 ∈ s.bs, b0.addr = b.addr ∧ b0.avail = true ∧
+      (c.algo ≠ .sticky → 0 < s.ss → (b0.restart = true ∨ b0.inSS = true) → 0 < b0.final) := by
+  obtain ⟨s, hs, hn, hb, hav, hw, _, _⟩ := C03_backend_ok c retry h n sub b hres
+  refine ⟨s, hs, hn, ?_⟩
+  unfold effBs at hb
+  split at hb
+  · rename_i hc
+    refine ⟨b, hb, rfl, hav, fun h1 h2 _ => ?_⟩
+    rcases hc with hc | hc
+    · exact absurd hc h1
+    · omega
+  · obtain ⟨b0, hb0, rfl⟩ := List.mem_map.mp hb
+    by_cases ht : b0.restart = true ∨ b0.inSS = true
+    · obtain ⟨h1, _, h3, h4⟩ := C03_slowstart_never_above_final s.ss b0 ht
+      exact ⟨b0, hb0, h3.symm, by rw [← h4]; exact hav, fun _ _ _ => by omega⟩
+    · have hid : ssStep s.ss b0 = b0 := by
+        have h1 : b0.restart = false := by cases hx : b0.restart <;> simp_all
+        have h2 : b0.inSS = false := by cases hx : b0.inSS <;> simp_all
+        unfold ssStep; simp [h1, h2]
+      rw [hid] at hav
+      exact ⟨b0, hb0, by rw [hid], hav, fun _ _ h3 => absurd h3 ht⟩
 
 /-! ### Reload histories -/
 
@@ -291,16 +338,17 @@ theorem C03_reload_first_choice_positive (c : Cl) (conf : GConf) (c' : Cl) (hc :
 
 /-! ### non-vacuity: first choice `a` is all down, cross retry lands on `b` (n = 0) -/
 def exCl : Cl :=
-  { subs := [⟨"a", 1, [⟨"x:1", 100, 100, 0, false⟩]⟩, ⟨"b", 0, [⟨"y:1", 100, 100, 0, true⟩, ⟨"z:1", 0, 0, 0, true⟩]⟩]
+  { subs := [{ name := "a", w := 1, bs := [{ addr := "x:1", w := 100, cur := 100, conn := 0, avail := false }] },
+              { name := "b", w := 0, bs := [{ addr := "y:1", w := 100, cur := 100, conn := 0, avail := true }, { addr := "z:1", w := 0, cur := 0, conn := 0, avail := true }] }]
     g := { subs := [⟨"a", 1⟩, ⟨"b", 0⟩], total := 1, single := true, avail := 0 }
     retryMax := 2, crossRetry := 1, algo := .smooth }
-example : (balance exCl 0 7 0).1 = .ok "b" ⟨"y:1", 100, 100, 0, true⟩ := by decide
+example : (balance exCl 0 7 0).1 = .ok "b" { addr := "y:1", w := 100, cur := 100, conn := 0, avail := true } := by decide
 example : (balance { exCl with crossRetry := 0 } 0 7 0).1 = .err .noBackend "a" := by decide
 example : (balance exCl 4 7 0).1 = .err .retryTooMany "" := by decide
 
 /-- the scenario of a stale `avail`: {idc-b:100, idc-c:0} reloaded to {idc-a:0, idc-b:100, idc-c:0} -/
 def exR : Cl :=
-  { subs := [⟨"idc-b", 100, [⟨"x:1", 100, 100, 0, true⟩]⟩, ⟨"idc-c", 0, []⟩]
+  { subs := [{ name := "idc-b", w := 100, bs := [{ addr := "x:1", w := 100, cur := 100, conn := 0, avail := true }] }, { name := "idc-c", w := 0, bs := [] }]
     g := { subs := [⟨"idc-b", 100⟩, ⟨"idc-c", 0⟩], total := 100, single := true, avail := 0 }
     retryMax := 2, crossRetry := 1, algo := .smooth }
 example : ((reload exR [("idc-c", 0), ("idc-a", 0), ("idc-b", 100)]).1.g.avail,
